@@ -147,7 +147,16 @@ func runC13(t *testing.T, tape *sim.Tape, tier string) *Outcome {
 				o.violate("c13:user-data-lost", "user data stored on %s by an earlier call is gone; %s", sc.c.Name, hist())
 			}
 			sc.token = fmt.Sprintf("tok-%s", sc.c.Name)
-			call.Conn.Store(tokenKey, sc.token)
+			// the entry is written with one of the writing methods of the user data (whichever the application
+			// prefers; the connection name decides)
+			switch hash64(sc.c.Name+"/how") % 3 {
+			case 0:
+				call.Conn.Store(tokenKey, sc.token)
+			case 1:
+				call.Conn.Swap(tokenKey, sc.token)
+			default:
+				call.Conn.LoadOrStore(tokenKey, sc.token)
+			}
 		}
 		cl.S.Park("?", "handler:"+call.Method, nil, nil)
 	}
@@ -302,7 +311,7 @@ func init() {
 	register(&Check{
 		ID: "C13", Bubble: true, Run: runC13,
 		Runs:   map[string]int{"quick": 16000, "thorough": 500000},
-		Rule:   "a case is one run of the full server (with or without a required password) and 2..8 connections that dial, send 2..10 (thorough ..20) requests over {SELECT valid/invalid/missing/negative/huge (the database moves iff the answer is OK), AUTH right/wrong, PING, data commands, CONFIG SET/GET incl. CONFIG SET requirepass when a password is required} and close at seeded moments (one run in eight also stops the server in the middle), interleaved at byte-delivery and handler-entry granularity with a swarm-chosen bias towards staying on one connection; inside every handler call conn.Database(), IsAuthrized(), the per-connection user data (exactly the one entry the handler stored, under one of ten natural key names) and the *redis.Conn identity are compared with that connection's own history; distinct = distinct (shape, order in which handler calls of the connections interleaved) signatures",
+		Rule:   "a case is one run of the full server (with or without a required password) and 2..8 connections that dial, send 2..10 (thorough ..20) requests over {SELECT valid/invalid/missing/negative/huge (the database moves iff the answer is OK), AUTH right/wrong, PING, data commands, CONFIG SET/GET incl. CONFIG SET requirepass when a password is required} and close at seeded moments (one run in eight also stops the server in the middle), interleaved at byte-delivery and handler-entry granularity with a swarm-chosen bias towards staying on one connection; inside every handler call conn.Database(), IsAuthrized(), the per-connection user data (exactly the one entry the handler stored - with Store, Swap or LoadOrStore - under one of ten natural key names) and the *redis.Conn identity are compared with that connection's own history; distinct = distinct (shape, order in which handler calls of the connections interleaved) signatures",
 		Real:   []string{"redis.Server accept loop, connection goroutines, SELECT/AUTH executors, redis.Conn state, connection registry"},
 		Stub:   []string{"network: simulated", "handler: recording double (parks at entry)"},
 		Assume: []string{"negative database indexes are not generated"},
